@@ -1034,7 +1034,7 @@ class CObs:
         return self.real == other.real and self.imag == other.imag
 
     def __str__(self):
-        return '(' + str(self.real) + int(self.imag >= 0.0) * '+' + str(self.imag) + 'j)'
+        return '(' + str(self.real) + int(not np.signbit(float(self.imag))) * '+' + str(self.imag) + 'j)'
 
     def __repr__(self):
         return 'CObs[' + str(self) + ']'
